@@ -242,6 +242,8 @@ PATTERN_WORDS = ["git", "status", "push", "rm", "-rf", "*", "foo*", "ls", "/tmp/
 MESSAGES = ["no", "use trash instead", 'say \\"hi\\"', "back\\\\slash", "", "tab\there", "ünï", 'a "quoted" b', "trailing\\", "x|y", "#not comment"]
 DIRECTIVES = ["allow", "ask", "deny", "allow-redirect", "ask-redirect", "deny-redirect", "after", "allow-mcp", "ask-mcp", "deny-mcp", "after-mcp"]
 WS = [" ", "  ", "\t", " \t "]
+# what str.strip() removes without being a line boundary of splitlines(): padding a line with these must not change it
+PADWS = WS + ["\u00a0", "\u3000", "\x1f", " \u2003", "\u00a0\t", "\u205f "]
 BREAKS = ["\n", "\n", "\n", "\r\n", "\r", "\x0b", "\x0c", "\x1c", "\x1d", "\x1e", "\x85", "\u2028", "\u2029"]
 
 
@@ -261,10 +263,10 @@ def gen_rule_line(r) -> str:
         line += r.pick(["|", " |", "  |"])
     if r.chance(0.5):
         line += r.pick(WS) + '"' + r.pick(MESSAGES) + '"'
-    if r.chance(0.1):
-        line += r.pick(WS)
-    if r.chance(0.1):
-        line = r.pick(WS) + line
+    if r.chance(0.15):
+        line += r.pick(PADWS)
+    if r.chance(0.15):
+        line = r.pick(PADWS) + line
     return line
 
 
